@@ -16,11 +16,12 @@ Definition search_post (h : heap) (r : sres) : Prop :=
   end.
 
 Lemma search_loop_post h v slm vol :
+  v_os v = Linux ->    (* on Windows a file met before the end of the path reports the no-such-directory value *)
   slm <> SlStat -> is_dir h vol ->
   forall fuel parent pi sl, is_dir h parent ->
     search_post h (search_loop fuel h v slm vol parent pi sl None).
 Proof.
-  intros Hslm Hvol. induction fuel as [|f IH]; intros parent pi sl Hpar; cbn [search_loop].
+  intros Hos Hslm Hvol. induction fuel as [|f IH]; intros parent pi sl Hpar; cbn [search_loop].
   - exists parent. cbn. repeat split; auto; discriminate.
   - destruct (pi_next (v_os v) pi) as [ok pi1]. destruct ok; cbn [negb].
     2:{ exists parent. cbn. repeat split; auto. }
@@ -35,7 +36,7 @@ Proof.
     + destruct (pi_is_last pi1); [now apply Hret|].
       destruct (check_permission m OpenLookup (v_user v)); [|now apply Hret].
       apply IH. apply is_dir_get. eauto.
-    + destruct (pi_is_last pi1); now apply Hret.
+    + rewrite Hos. destruct (pi_is_last pi1); now apply Hret.
     + destruct (pi_is_last pi1 && slmode_eqb slm SlLstat); [now apply Hret|].
       destruct (Nat.ltb slCountMax (S sl)); [now apply Hret|].
       assert (Hsaved : (if pi_is_last pi1 && slmode_eqb slm SlStat then Some pi1 else None) = None).
